@@ -16,6 +16,10 @@
  *                     p a helper thread that stays alive until the case ends; scope: g GLOBAL, t THREAD, x an invalid value.
  *                     The main thread serializes.  At the end of the case the helper and the main thread drop their
  *                     thread formats and the global format is reset.
+ *   P<path>=<mode>,<n>,<hextag>  json_object_set_serializer(node, a serializer of this driver, ...): the node then prints a piece
+ *                     built with the public print-buffer API:  q sprintbuf("\"%s\"", tag)   d sprintbuf("1%0*d", n, 7)
+ *                     m printbuf_memappend x3 (quote, tag, quote)   s printbuf_memset(-1, ' ', n) + printbuf_strappend("true")
+ *                     c printbuf_strappend(quote) + sprintbuf("%.*s", n, ...) per chunk of n bytes of the tag + quote
  *   A<path>:<jvtext> replace the child (array_put_idx / object_add on the
  *   existing key)   X<path> delete the child (array_del_idx / object_del);  <path> = @ (root) or i.j.k (child positions)
  * then a step "tree <typed dump>" (and "aside <typed dump>" after K) precedes the per-flag steps.  Per flag value
@@ -24,6 +28,7 @@
  * sequences ESC [ ... m are removed before the re-parse (the text column shows them). */
 #include "jvtext.h"
 #include "json_tokener.h"
+#include "printbuf.h"
 #include <pthread.h>
 const char *DOMAIN = "ser";
 
@@ -229,6 +234,40 @@ static int format_op(const char *op)
 	return rc;
 }
 
+/* ---- custom serializers that build their text with the public print-buffer API ---- */
+struct piece { char mode; int n; char *tag; size_t taglen; };
+static long pieces_live = 0;
+static void free_piece(struct json_object *jso, void *userdata)
+{
+	struct piece *pc = (struct piece *)userdata;
+	(void)jso;
+	if (pc) { (free)(pc->tag); (free)(pc); pieces_live--; }
+}
+static int piece_printer(struct json_object *jso, struct printbuf *pb, int level, int flags)
+{
+	struct piece *pc = (struct piece *)json_object_get_userdata(jso);
+	(void)level; (void)flags;
+	switch (pc->mode) {
+	case 'q': return sprintbuf(pb, "\"%s\"", pc->tag);
+	case 'd': return sprintbuf(pb, "1%0*d", pc->n, 7);
+	case 'm':
+		if (printbuf_memappend(pb, "\"", 1) < 0 || printbuf_memappend(pb, pc->tag, (int)pc->taglen) < 0) return -1;
+		return printbuf_memappend(pb, "\"", 1);
+	case 's':
+		if (printbuf_memset(pb, -1, ' ', pc->n) < 0) return -1;
+		return printbuf_strappend(pb, "true");
+	case 'c': {
+		size_t i;
+		if (printbuf_strappend(pb, "\"") < 0) return -1;
+		for (i = 0; i < pc->taglen; i += (size_t)pc->n) {
+			size_t k = pc->taglen - i < (size_t)pc->n ? pc->taglen - i : (size_t)pc->n;
+			if (sprintbuf(pb, "%.*s", (int)k, pc->tag + i) < 0) return -1;
+		}
+		return printbuf_strappend(pb, "\""); }
+	}
+	return -1;
+}
+
 /* returns 0 when the history has to stop (a step was printed that says why) */
 static int apply_op(char *op, struct json_object **t, struct json_object **aside, int *has_aside, int *nsteps)
 {
@@ -300,6 +339,25 @@ static int apply_op(char *op, struct json_object **t, struct json_object **aside
 		case 'T': { size_t len; unsigned char *b = unhex(p, &len); json_object_set_string_len(n, (const char *)b, (int)len); (free)(b); break; }
 		}
 		return 1;
+	case 'P': {
+		/* P<path>=<mode>,<n>,<hextag> */
+		struct piece *pc;
+		size_t tl; unsigned char *b;
+		char *c1, *c2;
+		n = walk(*t, &p, 0, &last, &ok);
+		if (*p != '=' || !p[1] || p[2] != ',' || !(c2 = strchr(p + 3, ','))) { if ((*nsteps)++) printf(" | "); printf("BADOP"); return 0; }
+		c1 = (char *)p + 3;
+		if (!ok || !n) return 1;                 /* nothing there, or the NULL pointer */
+		pc = (struct piece *)(malloc)(sizeof(*pc));
+		pc->mode = p[1];
+		pc->n = atoi(c1);
+		b = unhex(c2 + 1, &tl);
+		pc->tag = (char *)(malloc)(tl + 1); memcpy(pc->tag, b, tl); pc->tag[tl] = 0; pc->taglen = tl;
+		(free)(b);
+		if (pc->mode == 'c' && pc->n < 1) pc->n = 1;
+		pieces_live++;
+		json_object_set_serializer(n, piece_printer, pc, free_piece);
+		return 1; }
 	case 'F': {
 		int rc = format_op(op);
 		if ((*nsteps)++) printf(" | ");
@@ -402,4 +460,5 @@ void run_case(char *rest)
 	live0 += expected_lost; expected_lost = 0;
 	if (xa_live != live0) printf(" | LEAK %ld", xa_live - live0);
 	else if (tags_live != 0) { printf(" | LEAK userdata %ld", tags_live); tags_live = 0; }
+	else if (pieces_live != 0) { printf(" | LEAK userdata %ld", pieces_live); pieces_live = 0; }
 }
